@@ -486,7 +486,8 @@ class AdaptiveSolverBase(SolverBase):
                 # do the step if the error is sufficiently small
                 if error_rel <= 1:
                     steps += 1
-                    t += dt_step
+                    # land exactly on t_end if the step was shortened to reach it
+                    t = t_end if dt_step >= t_end - t else t + dt_step
                     # copy new state into state_data to accept it
                     state_data[...], self.info["post_step_data"] = post_step_hook(
                         new_state, t, self.info["post_step_data"]
